@@ -147,3 +147,29 @@ def run_case(case: cases.SVCase, stats: Stats) -> None:
 PARTS = [
     HypPart("gen", strategy, run_case, {"quick": 1200, "thorough": 24000}, describe=cases.describe),
 ]
+
+
+# ---- deliberate probe of recorded finding D4b (keeps its KNOWN-FINDING line printed while it exists) ----
+
+
+def probe_jobs(tier: str, seed: int) -> Any:
+    return ["D4b"]
+
+
+def run_probe(job: str, stats: Stats) -> None:
+    from ..model import Enum, Field, File, Message, TRef, Unit, set_parents
+
+    e = Enum("Shade", 3, [("EV_FIVE", 5), ("EV_TWO", 2)])
+    m = Message("Probe", False, [Field("lead", __import__("bpverif.model", fromlist=["TBase"]).TBase("uint", 3), 1), Field("shade", TRef("Shade", e), 2)])
+    unit = Unit([File("probe", "probe", [e, m])])
+    set_parents(unit)
+    with gen.Compiled(unit) as cu:
+        mods = cu.load_python()
+        for v in ({"lead": 1, "shade": 2}, {"lead": 7, "shade": 5}):
+            check_roundtrip(mods, m, v, "probe", stats, "py")
+            stats.evaluations += 1
+
+
+from ..runner import FuncPart  # noqa: E402
+
+PARTS.append(FuncPart("probe", probe_jobs, run_probe))
